@@ -9,7 +9,7 @@
     own update) with neighbours bounded by M.  After [D] = maximal depth sweeps the max-norm error has
     contracted by the factor 1 - g D < 1; geometric decay and the Archimedean property of Q finish. *)
 From Coq Require Import List Bool Arith ZArith QArith Qabs Lia Lqa.
-From CB Require Import Model.C15_Smooth Proofs.C15_Smooth.
+From CB Require Import Model.C15_Smooth Proofs.C15_Smooth Proofs.C15_SmoothGraph.
 Import ListNotations.
 Close Scope Q_scope.
 Open Scope nat_scope.
@@ -388,4 +388,50 @@ Proof.
   - rewrite iterate_length, L. exact WF.
   - exact Hh.
   - apply (within_le (qpow rho m * M)); [exact Hm|apply Geo].
+Qed.
+
+(** * convergence of [smooth] on a grid *)
+Close Scope Q_scope.
+
+(** a real schedule is well-formed as soon as every visited junction reaches a non-visited one
+    (a junction without neighbours reaches nothing) *)
+Lemma schedule_wf_sched ct cells n fixed :
+  (forall i, In i (map fst (schedule ct cells n fixed)) -> reach (schedule ct cells n fixed) i) ->
+  wf_sched n (schedule ct cells n fixed).
+Proof.
+  intros Hr jn Hin. destruct (schedule_wf_lt _ _ _ _ _ Hin) as [A B]. split; [exact A|]. split; [|exact B].
+  assert (Hv : In (fst jn) (map fst (schedule ct cells n fixed))) by (apply in_map; exact Hin).
+  pose proof (Hr _ Hv) as R. inversion R as [i Hnot|i nb t Hin' Ht _]; subst; [contradiction|].
+  assert (ND := schedule_NoDup ct cells n fixed).
+  destruct jn as [j nb0]. simpl in *.
+  assert (nb = nb0) by (apply (sched_functional _ ND j); assumption). subst nb0.
+  intro E. subst nb. destruct Ht.
+Qed.
+
+Theorem smooth_converges g fixed_idx targets tol2 xs ys zs hx hy hz :
+  let fixed := fixed_idx ++ fix_points (g_n g) (xs, ys, zs) targets tol2 in
+  let sch := schedule (g_ct g) (g_cells g) (g_n g) fixed in
+  length xs = g_n g -> length ys = g_n g -> length zs = g_n g ->
+  length hx = g_n g -> length hy = g_n g -> length hz = g_n g ->
+  (forall jn, In jn sch -> harmonic_at hx jn /\ harmonic_at hy jn /\ harmonic_at hz jn) ->
+  (forall i, ~ In i (map fst sch) ->
+      (nth i xs 0 == nth i hx 0)%Q /\ (nth i ys 0 == nth i hy 0)%Q /\ (nth i zs 0 == nth i hz 0)%Q) ->
+  (forall i, In i (map fst sch) -> reach sch i) ->
+  forall eps, (0 < eps)%Q -> exists K, forall iters, K <= iters ->
+    let '(xs', ys', zs') := smooth g fixed_idx targets tol2 iters (xs, ys, zs) in
+    within eps xs' hx /\ within eps ys' hy /\ within eps zs' hz.
+Proof.
+  intros fixed sch Lx Ly Lz Lhx Lhy Lhz Hh Hb Hr eps He.
+  assert (WF : wf_sched (g_n g) sch) by (apply schedule_wf_sched; exact Hr).
+  assert (ND : NoDup (map fst sch)) by apply schedule_NoDup.
+  assert (Cv : forall s h, length s = g_n g -> length h = g_n g ->
+            (forall jn, In jn sch -> harmonic_at h jn) ->
+            (forall i, ~ In i (map fst sch) -> (nth i s 0 == nth i h 0)%Q) ->
+            exists K, forall k, K <= k -> within eps (iterate k sch s) h).
+  { intros s h Ls Lh H1 H2. apply convergence; auto; [congruence|rewrite Ls; exact WF]. }
+  destruct (Cv xs hx Lx Lhx (fun jn Hj => proj1 (Hh jn Hj)) (fun i Hi => proj1 (Hb i Hi))) as [Kx HKx].
+  destruct (Cv ys hy Ly Lhy (fun jn Hj => proj1 (proj2 (Hh jn Hj))) (fun i Hi => proj1 (proj2 (Hb i Hi)))) as [Ky HKy].
+  destruct (Cv zs hz Lz Lhz (fun jn Hj => proj2 (proj2 (Hh jn Hj))) (fun i Hi => proj2 (proj2 (Hb i Hi)))) as [Kz HKz].
+  exists (Kx + Ky + Kz). intros iters Hk. unfold smooth. fold fixed. fold sch.
+  split; [apply HKx; lia|]. split; [apply HKy; lia|apply HKz; lia].
 Qed.
